@@ -138,7 +138,8 @@ theorem dot11_parse_facts (cls : String) (b : Bytes) (d : Dot11) (i : Inner) (hc
 
 /-- the common header of a parsed key frame is the first 5 bytes of the buffer; the key is as long as its 16-bit length field said -/
 theorem eapol_parse_facts (rsn : Bool) (b : Bytes) (e : Eapol) (i : Inner) (h : Eapol.parse rsn b = .ok (e, i)) :
-    e.hdr = b.take 5 ∧ 5 ≤ b.length ∧ e.key.length < 65536 ∧ e.rsn = rsn := by
+    e.hdr = b.take 5 ∧ 5 ≤ b.length ∧ e.key.length < 65536 ∧ e.rsn = rsn ∧
+    (e.key = [] → Eapol.beAt e.sub (Eapol.keyLenOff e.rsn) 2 = 0 ∨ i = .none) := by
   unfold Eapol.parse at h
   have i0 := Cursor.ofBytes_inv b
   rcases Cursor.read_spec (Cursor.ofBytes b) 5 i0 with ⟨hdr, c0, e0, _, _, _, hn0, hhdr, _⟩ | ⟨e0, _⟩
@@ -154,26 +155,34 @@ theorem eapol_parse_facts (rsn : Bool) (b : Bytes) (e : Eapol) (i : Inner) (h : 
         · rcases Cursor.read_spec c2 (Eapol.beAt sub (Eapol.keyLenOff rsn) 2) i2 with ⟨key, c3, e3, _, hkl, _, _, _, _⟩ | ⟨e3, _⟩
           · simp only [e3] at h
             have hfin : ∀ j, (Out.ok ((⟨rsn, hdr, sub, key⟩ : Eapol), j) : Out (Eapol × Inner)) = .ok (e, i) →
-                e.hdr = b.take 5 ∧ 5 ≤ b.length ∧ e.key.length < 65536 ∧ e.rsn = rsn := by
+                e.hdr = b.take 5 ∧ 5 ≤ b.length ∧ e.key.length < 65536 ∧ e.rsn = rsn ∧
+                (e.key = [] → Eapol.beAt e.sub (Eapol.keyLenOff e.rsn) 2 = 0 ∨ i = .none) := by
               intro j hj
               injection hj with hj; injection hj with h1 _
               subst h1
-              exact ⟨by simpa [Cursor.ofBytes] using hhdr, by simpa [Cursor.ofBytes] using hn0, by rw [hkl]; exact hk16, rfl⟩
+              refine ⟨by simpa [Cursor.ofBytes] using hhdr, by simpa [Cursor.ofBytes] using hn0, by rw [hkl]; exact hk16, rfl, ?_⟩
+              intro hk
+              left
+              show Eapol.beAt sub (Eapol.keyLenOff rsn) 2 = 0
+              rw [← hkl]
+              have : key = [] := hk
+              rw [this]; rfl
             split at h
             · rcases bind_ok_inv h with ⟨rest, _, h⟩
               exact hfin _ h
             · exact hfin _ h
           · simp only [e3] at h; cases h
-        · injection h with h; injection h with h1 _
+        · injection h with h; injection h with h1 h2
           subst h1
-          exact ⟨by simpa [Cursor.ofBytes] using hhdr, by simpa [Cursor.ofBytes] using hn0, by simp, rfl⟩
+          exact ⟨by simpa [Cursor.ofBytes] using hhdr, by simpa [Cursor.ofBytes] using hn0, by simp, rfl, fun _ => .inr h2.symm⟩
       · simp only [e2] at h; cases h
     · simp only [e1] at h; cases h
   · simp only [e0, bind, Out.bind] at h; cases h
 
 /-- what `EAPOL::from_bytes` returned was built by the constructor the key-descriptor type octet names -/
 theorem eapol_fromBytes_typed (b : Bytes) (e : Eapol) (i : Inner) (h : Eapol.fromBytes b = .ok (some (e, i))) :
-    EapolTyped e ∧ e.key.length < 65536 ∧ ∀ name pb fb, i ≠ .cls name pb fb := by
+    EapolTyped e ∧ e.key.length < 65536 ∧ (∀ name pb fb, i ≠ .cls name pb fb) ∧
+    (e.key = [] → Eapol.beAt e.sub (Eapol.keyLenOff e.rsn) 2 = 0 ∨ i = .none) := by
   unfold Eapol.fromBytes at h
   split at h
   · cases h
@@ -186,10 +195,11 @@ theorem eapol_fromBytes_typed (b : Bytes) (e : Eapol) (i : Inner) (h : Eapol.fro
       dsimp only at h
       generalize htot : (if b.length < Eapol.beAt hd 2 2 + 4 then b.length else Eapol.beAt hd 2 2 + 4) = total at h
       have key : ∀ rsn, Eapol.parse rsn (b.take total) = .ok (e, i) → Wifi.byteAt e.hdr 4 = Wifi.byteAt hd 4 ∧
-          e.key.length < 65536 ∧ e.rsn = rsn ∧ ∀ name pb fb, i ≠ .cls name pb fb := by
+          e.key.length < 65536 ∧ e.rsn = rsn ∧ (∀ name pb fb, i ≠ .cls name pb fb) ∧
+          (e.key = [] → Eapol.beAt e.sub (Eapol.keyLenOff e.rsn) 2 = 0 ∨ i = .none) := by
         intro rsn hp
-        obtain ⟨hh, h5, hk, hr⟩ := eapol_parse_facts rsn _ e i hp
-        refine ⟨?_, hk, hr, fun name pb fb hi => Eapol.parse_no_cls rsn _ e name pb fb (hi ▸ hp)⟩
+        obtain ⟨hh, h5, hk, hr, hsh⟩ := eapol_parse_facts rsn _ e i hp
+        refine ⟨?_, hk, hr, fun name pb fb hi => Eapol.parse_no_cls rsn _ e name pb fb (hi ▸ hp), hsh⟩
         rw [hh, ← hrd, List.take_take]
         have : 5 ≤ total := by rw [List.length_take] at h5; omega
         rw [Nat.min_eq_left this]
@@ -197,14 +207,14 @@ theorem eapol_fromBytes_typed (b : Bytes) (e : Eapol) (i : Inner) (h : Eapol.fro
       · rename_i hty
         rcases bind_ok_inv h with ⟨r, hp, h⟩
         injection h with h; injection h with h; subst h
-        obtain ⟨h4, hk, hr, hnc⟩ := key false hp
-        exact ⟨.inl ⟨hr, by rw [h4]; simpa using hty⟩, hk, hnc⟩
+        obtain ⟨h4, hk, hr, hnc, hsh⟩ := key false hp
+        exact ⟨.inl ⟨hr, by rw [h4]; simpa using hty⟩, hk, hnc, hsh⟩
       · split at h
         · rename_i hty
           rcases bind_ok_inv h with ⟨r, hp, h⟩
           injection h with h; injection h with h; subst h
-          obtain ⟨h4, hk, hr, hnc⟩ := key true hp
-          exact ⟨.inr ⟨hr, by rw [h4]; simpa using hty⟩, hk, hnc⟩
+          obtain ⟨h4, hk, hr, hnc, hsh⟩ := key true hp
+          exact ⟨.inr ⟨hr, by rw [h4]; simpa using hty⟩, hk, hnc, hsh⟩
         · injection h with h; cases h
     · cases hrd
 
@@ -254,7 +264,8 @@ theorem eapolNull_unmodelled : modelled Wifi.eapolNull = false := by decide
 /-- **the EAPOL constructors and `EAPOL::from_bytes` establish the key bound, the link and the entry name** -/
 theorem eapol_parse_facts_all (cls : String) (b : Bytes) (e : Eapol) (i : Inner)
     (h : Wifi.parse cls b = .ok (.eapol e, i)) :
-    e.key.length < 65536 ∧ LinkInnerA (.wifi (.eapol e)) i ∧ EntryName cls (.wifi (.eapol e)) := by
+    e.key.length < 65536 ∧ (e.key = [] → Eapol.beAt e.sub (Eapol.keyLenOff e.rsn) 2 = 0 ∨ i = .none) ∧
+    LinkInnerA (.wifi (.eapol e)) i ∧ EntryName cls (.wifi (.eapol e)) := by
   have hleaf : ∀ j : Inner, (∀ name pb fb, j ≠ .cls name pb fb) → LinkInnerA (.wifi (.eapol e)) j := by
     intro j hj
     cases j with
@@ -264,13 +275,13 @@ theorem eapol_parse_facts_all (cls : String) (b : Bytes) (e : Eapol) (i : Inner)
   have hname : ∀ rsn, e.rsn = rsn → (AnyObj.wifi (.eapol e)).info.1 = if rsn then "RSNEAPOL" else "RC4EAPOL" := by
     intro rsn hr; rw [← hr]; rfl
   rcases wifi_parse_eapol cls b e i h with ⟨rfl, hp⟩ | ⟨rfl, hp⟩ | ⟨hc, hfb | ⟨rfl, rfl⟩⟩
-  · obtain ⟨_, _, hk, hr⟩ := eapol_parse_facts false b e i hp
-    exact ⟨hk, hleaf i (fun n pb fb hi => Eapol.parse_no_cls false b e n pb fb (hi ▸ hp)), .inl (hname false hr).symm⟩
-  · obtain ⟨_, _, hk, hr⟩ := eapol_parse_facts true b e i hp
-    exact ⟨hk, hleaf i (fun n pb fb hi => Eapol.parse_no_cls true b e n pb fb (hi ▸ hp)), .inl (hname true hr).symm⟩
-  · obtain ⟨ht, hk, hnc⟩ := eapol_fromBytes_typed b e i hfb
-    exact ⟨hk, hleaf i hnc, .inr ⟨hc.symm, ht⟩⟩
-  · refine ⟨by decide, ⟨rfl, by decide, ?_⟩, .inr ⟨hc.symm, .inl ⟨rfl, by decide⟩⟩⟩
+  · obtain ⟨_, _, hk, hr, hsh⟩ := eapol_parse_facts false b e i hp
+    exact ⟨hk, hsh, hleaf i (fun n pb fb hi => Eapol.parse_no_cls false b e n pb fb (hi ▸ hp)), .inl (hname false hr).symm⟩
+  · obtain ⟨_, _, hk, hr, hsh⟩ := eapol_parse_facts true b e i hp
+    exact ⟨hk, hsh, hleaf i (fun n pb fb hi => Eapol.parse_no_cls true b e n pb fb (hi ▸ hp)), .inl (hname true hr).symm⟩
+  · obtain ⟨ht, hk, hnc, hsh⟩ := eapol_fromBytes_typed b e i hfb
+    exact ⟨hk, hsh, hleaf i hnc, .inr ⟨hc.symm, ht⟩⟩
+  · refine ⟨by decide, fun _ => .inl (by decide), ⟨rfl, by decide, ?_⟩, .inr ⟨hc.symm, .inl ⟨rfl, by decide⟩⟩⟩
     intro y r hy hcov _
     have := entry_modelled _ y hy hcov
     rw [eapolNull_unmodelled] at this
